@@ -107,6 +107,10 @@ class FakeWS:
         self._conn = conn
 
     def sendMessage(self, payload, isBinary=False):
+        if getattr(self._conn, "closing", False):
+            # Autobahn: the closing handshake has begun, the protocol is no longer OPEN
+            from autobahn.exception import Disconnected
+            raise Disconnected("Attempt to send on a closed protocol")
         self._conn.up.append(payload)
         self._conn.world._ghost_tx(self._conn.ci, payload)
 
@@ -317,7 +321,7 @@ class MailboxWorld:
     explored={kinds}, coarse={client indexes whose up/down run eagerly},
     welcome={...}, reorder=int, dup=int, acks=bool, initial_fail=bool"""
 
-    KINDS = ("nconn_ok", "nconn_fail", "ndeliver", "nclose", "nlose", "ntimer", "down", "up", "api", "raw", "turn", "connect", "stopfin", "reorder", "dup", "srverr", "drop", "hsfail", "connfail", "junk")
+    KINDS = ("nconn_ok", "nconn_fail", "ndeliver", "nclose", "nlose", "ntimer", "down", "up", "api", "raw", "turn", "connect", "stopfin", "reorder", "dup", "srverr", "drop", "hsfail", "connfail", "junk", "wsclosing")
 
     def __init__(self, cfg, seed=0):
         self.cfg = cfg
@@ -434,12 +438,12 @@ class MailboxWorld:
         late_down = []
         for c in self.clients:
             cn = c.conn
-            if cn and cn.open and not cn.stopping and cn.down:
+            if cn and cn.open and not cn.stopping and cn.down and not getattr(cn, "closing", False):
                 # late_down: the default schedule delivers to this client only when nothing else can happen
                 (late_down if c.ci in self.cfg.get("late_down", ()) else evs).append(("down", c.ci))
         for c in self.clients:
             cn = c.conn
-            if cn and cn.open and not cn.stopping and cn.up:
+            if cn and cn.open and not cn.stopping and cn.up and not getattr(cn, "closing", False):
                 evs.append(("up", c.ci))
         late = []
         for c in self.clients:
@@ -494,6 +498,12 @@ class MailboxWorld:
                 for side in (0, 1):
                     if not link.ends[side].transport.closed and not link.broken:
                         evs.append(("nlose", link.idx, side))
+        if self.cfg.get("wsclosing"):
+            # the server starts the WebSocket closing handshake (it is going down): from the client's point of view the protocol is
+            # no longer open -- sendMessage raises -- until the TCP connection is gone (the `drop` that must follow)
+            for c in self.clients:
+                if c.drops_left > 0 and c.conn and c.conn.open and not c.conn.stopping and not c.conn.down and not getattr(c.conn, "closing", False):
+                    evs.append(("wsclosing", c.ci))
         if self.junk_left > 0:
             # a server that is NOT conformant: one response of a known type with its fields missing, pushed to the front of
             # the client's queue (only scenarios about robustness against such a server set cfg junk)
@@ -578,7 +588,7 @@ class MailboxWorld:
     def _closure(self):
         n = 0
         while True:
-            evs = [e for e in self._all_enabled() if self._is_eager(e) and e[0] not in ("drop", "dup", "reorder", "connfail", "srverr", "nlose", "hsfail", "ntimer", "junk")]
+            evs = [e for e in self._all_enabled() if self._is_eager(e) and e[0] not in ("drop", "dup", "reorder", "connfail", "srverr", "nlose", "hsfail", "ntimer", "junk", "wsclosing")]
             if not evs:
                 break
             self._do(evs[0])
@@ -653,6 +663,8 @@ class MailboxWorld:
                 self._stopfin(c, process_uplink=False)
             else:
                 self._drop(c)
+        elif kind == "wsclosing":
+            c.conn.closing = True
         elif kind == "junk":
             self.junk_left -= 1
             self._deliver(c, dict(JUNK_RESPONSES[ev[2]]))
@@ -920,7 +932,7 @@ class MailboxWorld:
             conn_img = None
             if cn is not None:
                 sp = cn.sp
-                conn_img = (cn.open, cn.stopping, tuple(bytes(x) for x in cn.up),
+                conn_img = (cn.open, cn.stopping, getattr(cn, "closing", False), tuple(bytes(x) for x in cn.up),
                             tuple(json.dumps(m, sort_keys=True) for m in cn.down),
                             (sp._app is not None, sp._side, sp._did_allocate, sp._listening, sp._did_claim,
                              sp._nameplate_id, sp._did_release, sp._did_open, sp._mailbox is not None,
